@@ -732,5 +732,58 @@ theorem timeoutsK_nil_body {S : Stacking} {L : Limits} {c : Conn} {d : Nat} (as 
   subst hp hd
   simp [timeoutsK]
 
+/-! ## §7 the loop for an arbitrary expiry table (`lapse`, `runRe`) -/
+
+/-- an expiry in a phase that is not in the table leaves the state as it is: the connection is closed there -/
+theorem lapse_not_re {re : Phase → Bool} {L : Limits} (n : Nat) {c : Conn} (u : Nat) (h : re c.phase = false) :
+    lapse re L n c u = c := by
+  cases n with
+  | zero => rfl
+  | succ n => cases hd : c.deadline <;> simp [lapse, hd, h]
+
+theorem lapseEnd_not_re {re : Phase → Bool} {L : Limits} (n : Nat) {c : Conn} (h : re c.phase = false) :
+    lapseEnd re L n c = c := by
+  cases n with
+  | zero => rfl
+  | succ n => cases hd : c.deadline <;> simp [lapseEnd, hd, h]
+
+theorem reCode_eq (p : Phase) : reCode p = (p == .body) := by
+  cases p <;> rfl
+
+/-- with the table of the code `lapse` is `settle`, whatever the budget (one round is the most it takes) -/
+theorem lapse_reCode (L : Limits) (n : Nat) (c : Conn) (u : Nat) : lapse reCode L (n + 1) c u = settle L c u := by
+  obtain ⟨p, a, de⟩ := c
+  cases de with
+  | none => cases p <;> simp [lapse, settle]
+  | some d =>
+    have hi : lapse reCode L n (enter L .idle d) u = enter L .idle d := lapse_not_re n u rfl
+    cases p <;> simp [lapse, settle, reCode_eq, hi]
+
+theorem lapseEnd_reCode (L : Limits) (n : Nat) (c : Conn) : lapseEnd reCode L (n + 1) c = settleEnd L c := by
+  obtain ⟨p, a, de⟩ := c
+  cases de with
+  | none => cases p <;> simp [lapseEnd, settleEnd]
+  | some d =>
+    have hi : lapseEnd reCode L n (enter L .idle d) = enter L .idle d := lapseEnd_not_re n rfl
+    cases p <;> simp [lapseEnd, settleEnd, reCode_eq, hi]
+
+theorem runRe_reCode {S : Stacking} {L : Limits} (n : Nat) (evs : List (Nat × Ev)) (c : Conn) :
+    runRe reCode (n + 1) S L c evs = run S L c evs := by
+  induction evs generalizing c with
+  | nil => simp only [runRe, run, lapseEnd_reCode]
+  | cons x rest ih =>
+    obtain ⟨t, e⟩ := x
+    simp only [runRe, run, lapse_reCode, ih]
+
+/-- an expiry in a phase that is not in the table closes, whatever arrives afterwards -/
+theorem runRe_expired_not_re {re : Phase → Bool} {S : Stacking} {L : Limits} (n : Nat) {c : Conn} {d t : Nat}
+    (e : Ev) (rest : List (Nat × Ev)) (hd : c.deadline = some d) (hx : d ≤ max t c.anchor)
+    (h : re c.phase = false) : runRe re n S L c ((t, e) :: rest) = .closed d c.phase c.anchor := by
+  simp [runRe, lapse_not_re n _ h, hd, hx]
+
+theorem runRe_nil_not_re {re : Phase → Bool} {S : Stacking} {L : Limits} (n : Nat) {c : Conn} {d : Nat}
+    (hd : c.deadline = some d) (h : re c.phase = false) : runRe re n S L c [] = .closed d c.phase c.anchor := by
+  simp [runRe, lapseEnd_not_re n h, hd]
+
 end C15
 end FwdVerif
